@@ -47,7 +47,9 @@ impl Emit {
             let _ = f.set_len(0);
             let _ = f.write_all(l.as_bytes());
         }
+        CASE_STARTED.store(now_secs(), std::sync::atomic::Ordering::Relaxed);
         let res = eval_caught(op, &args.iter().map(|s| s.as_str()).collect::<Vec<_>>());
+        CASE_STARTED.store(0, std::sync::atomic::Ordering::Relaxed);
         self.next += 1;
         let mut l = format!("{}\t{}", self.next, op);
         for a in args { l.push('\t'); l.push_str(a); }
@@ -72,6 +74,23 @@ impl Emit {
     pub fn stat_n(&mut self, k: &str, n: u64) { *self.stats.entry(k.to_string()).or_insert(0) += n; }
 }
 
+/// when the case being evaluated started (seconds since the epoch; 0 = none): a watchdog thread aborts the process when one
+/// evaluation of the implementation takes longer than HARNESS_CASE_TIMEOUT seconds (default 120) -- the orchestrator then reports
+/// the case named in the .cur file
+pub static CASE_STARTED: std::sync::atomic::AtomicU64 = std::sync::atomic::AtomicU64::new(0);
+fn now_secs() -> u64 { std::time::SystemTime::now().duration_since(std::time::UNIX_EPOCH).map(|d| d.as_secs()).unwrap_or(1).max(1) }
+fn start_watchdog() {
+    let limit: u64 = std::env::var("HARNESS_CASE_TIMEOUT").ok().and_then(|s| s.parse().ok()).unwrap_or(120);
+    std::thread::spawn(move || loop {
+        std::thread::sleep(std::time::Duration::from_secs(1));
+        let t = CASE_STARTED.load(std::sync::atomic::Ordering::Relaxed);
+        if t != 0 && now_secs().saturating_sub(t) > limit {
+            eprintln!("[watchdog] one evaluation exceeded {} s: giving up on this run", limit);
+            std::process::exit(97);
+        }
+    });
+}
+
 pub fn eval_caught(op: &str, args: &[&str]) -> String {
     let r = panic::catch_unwind(panic::AssertUnwindSafe(|| ops::eval(op, args)));
     match r {
@@ -86,6 +105,7 @@ fn main() {
     let argv: Vec<String> = std::env::args().collect();
     match argv.get(1).map(|s| s.as_str()) {
         Some("gen") => {
+            start_watchdog();
             let prop = &argv[2];
             let tier = &argv[3];
             let seed: u64 = argv[4].parse().expect("seed");
